@@ -21,7 +21,7 @@ checks = [
  dag("C04", "deterministic simulation: actions on multi-head replicas reached by simulated sync; query view vs action view vs advertised hello head", "For every action on a committed multi-head graph: fact-cache dump == perspective the action sees == model; hello_head == address of the collapse merge; no effects from the collapse."),
  dag("C05", "deterministic simulation: finalize commands placed anywhere by seeded generation; model decides concurrency of finalize commands from the global DAG", "ParallelFinalize must be returned exactly when the model finds two causally unordered finalize commands in the braid; state unchanged on failure."),
  dag("C06", "deterministic simulation with adversarial ingest: write-then-fail commands at every batch position, transaction kept in use afterwards; effects transcript checked", "Rejected commands leave no trace, earlier accepted commands still commit, children of rejected commands get NoSuchParent, effects rolled back."),
- dag("C07", "deterministic simulation: actions (multi-command, failing at every position, on single- and multi-head replicas reached by simulated sync) against the model; head set, fact dump and effect transcript compared before/after", "Success: exactly one new head above every previous head, all published commands present in order, facts and committed effects equal the model. Failure: heads, facts and commit stamp unchanged, no effect committed, nothing dangling. Runtime part (client.rs, transaction.rs) with the Rust DagPolicy; the VmPolicy publish loop is covered by the vmsim stage when present."),
+ dag("C07", "deterministic simulation: actions (multi-command, failing at every position, on single- and multi-head replicas reached by simulated sync) against the model; head set, fact dump and effect transcript compared before/after", "Success: exactly one new head above every previous head, all published commands present in order, facts and committed effects equal the model. Failure: heads, facts and commit stamp unchanged, no effect committed, nothing dangling. Two stages: the runtime's action path (client.rs, transaction.rs) under the Rust DagPolicy in dagsim, and the real compiler + VM + VmPolicy publish loop (vm_policy.rs) in vmsim with actions failing by rejected check, recall, VM panic in policy/seal/action body and Err return at every position; evidence of both stages is merged."),
  dag("C08", "deterministic simulation: several open transactions and actions interleaved on one replica by a seeded scheduler; shadow commit counter decides ConcurrentTransaction", "Commit must fail with ConcurrentTransaction iff another commit happened since the transaction first read the heads; committed set is monotone; failed commits change nothing."),
  dag("C09", "deterministic simulation: head set compared with the frontier of the shadow committed set after every commit/action, under duplicates, deep parents, merges of non-tips, flushes", "Heads strictly ascending by id and equal to the model frontier; init reachable."),
  dag("C10", "deterministic simulation with adversarial first commands and init-shaped commands at every batch position", "Graph creation only from a parentless first command with the graph id and a policy; foreign init rejected; own init re-delivery is a no-op."),
@@ -62,6 +62,15 @@ checks += [
  afc("C43", "deterministic simulation: 2-3 shuttle-scheduled threads on the real sys_lock/sys_unlock paths with a simulated futex that injects spurious wake-ups and wake-before-wait orders; deadlock and step-bound detection by the scheduler", "Never two holders; no deadlock or starvation within the step bound on any explored schedule."),
  afc("C44", "deterministic simulation: shuttle-scheduled threads racing lend, access through the loan, removal and drops in every order on the real Lender/Loan (exported under the guard) and through memory::State; drop-counting payload", "At most one live loan; access fails after the entry is removed; the shared data is dropped exactly once after both sides are gone."),
 ]
+
+
+VM_NOTE = "Trusted: the fact-store / action model in /verif/sim/vmsim/src/model.rs and the policy text generated from the same tables. Real code: aranya-policy-lang parser, aranya-policy-compiler, aranya-policy-vm Machine, aranya-runtime VmPolicy + VmPolicyIO + ClientState + linear storage (memory IoManager) + sync. Stubs: envelope FFI (TestFfiEnvelope, no signatures), network (messages moved by the harness, no faults in this engine), effect sink, seeded Csprng. The quantifier 'all fact schemas' is covered by one fixed family of schemas (int, bool, string, enum keys; 1-3 key fields). Sampled search: a clean batch is evidence, not proof."
+checks += [
+ dict(property_id="C29", engine="vmsim", technique="deterministic simulation: seeded histories of create/update/delete/upsert commands and reporter commands (query, exists, count_up_to, at_least, at_most, exactly) and map actions, compiled by the real policy compiler and executed by the real VM on 1-3 replicas with sync and merges; effects and committed facts compared with a typed fact-store model", text="Every reporter effect, every map iteration order, every refusal and the committed facts after every action and sync equal the model.", note=VM_NOTE, design="DESIGN.md section 5 (C29), 13"),
+]
+for c in checks:
+    if c["property_id"] == "C07":
+        c["note"] = c["note"] + " VM stage: " + VM_NOTE
 
 # Properties served by engines that are not finished yet are listed here and moved to `checks` when ready.
 pending = {
